@@ -95,7 +95,8 @@ class C14(E1Prop):
         # two builds: with -mbmi2 (pdep path + the portable loop selected by use_bmi2=false) and without
         # (the portable loop of the #else branch, which is what the suite's own build compiles)
         return [H("prop_C14_bmi2", "prop_C14.cpp", shards=8, flags=core.SAN + zoo.isa_flags()),
-                H("prop_C14_nobmi2", "prop_C14.cpp", shards=8)]
+                # the build without ISA extensions is also the OpenMP build (code paths under _OPENMP)
+                H("prop_C14_nobmi2", "prop_C14.cpp", shards=8, flags=core.SAN + ["-fopenmp"], link_flags=core.SAN_LINK + ["-fopenmp"])]
 
 
 @prop("C01")
@@ -239,7 +240,8 @@ class C05(E1Prop):
         b = core.SAN + zoo.isa_flags()
         return [H("prop_C05_n13", "prop_C05.cpp", shards=9, defines=["VF_GROUP=0"], flags=b),
                 H("prop_C05_n2", "prop_C05.cpp", shards=8, defines=["VF_GROUP=1"], flags=b),
-                H("prop_C05_n2_nobmi2", "prop_C05.cpp", shards=8, defines=["VF_GROUP=1"]),
+                # the build without ISA extensions is also the OpenMP build (-fopenmp defines _OPENMP: code paths under that macro)
+                H("prop_C05_n2_nobmi2", "prop_C05.cpp", shards=8, defines=["VF_GROUP=1"], flags=core.SAN + ["-fopenmp"], link_flags=core.SAN_LINK + ["-fopenmp"]),
                 H("prop_C05_n4", "prop_C05.cpp", shards=9, defines=["VF_GROUP=2"], flags=b),
                 H("prop_C05_stacks", "prop_C05.cpp", shards=14, defines=["VF_GROUP=3"], flags=b),
                 H("prop_C05_cuda_shim", "prop_C05.cpp", shards=4, defines=["VF_GROUP=4"], flags=b,
